@@ -25,12 +25,18 @@ def _path(x, h):
 
 def _int(x, h):
     if type(x) is int:
+        if x in (0, 1) and h % 5 == 4:
+            return bool(x)             # True == 1, False == 0: a flag computed elsewhere used as a small number
         return (np.int64, np.int32, np.int64)[h % 3](x) if abs(x) < 2 ** 31 else np.int64(x)
     return x
 
 
 def _float(x, h):
-    return np.float64(x) if type(x) is float else x
+    if type(x) is float:
+        if x.is_integer() and abs(x) < 2 ** 31 and h % 3 == 0:
+            return (int, np.int64)[(h >> 2) % 2](x)      # a whole-number coordinate handed over as an integer
+        return np.float64(x)
+    return x
 
 
 def _name(x, h):
@@ -45,7 +51,45 @@ def _names(x, h):
     return x
 
 
+# types seen accepted / refused per (callable, parameter types): a type that a callable accepts for one input and
+# chokes on for another is not a refusal of the type but a defect on that input
+ACCEPTED = set()
+REFUSED = {}
+
+
 KINDS = {"path": _path, "int": _int, "float": _float, "name": _name, "names": _names}
+
+# the documented order of the parameters (README / docstrings of the pinned sources): a caller may pass them by
+# position. Passing by position in THIS order must mean the same as passing by keyword.
+DOC_ORDER = {
+    "PlotfileCooker": ["plotfile_path", "limit_level", "header_only", "validate_mode", "maxmins", "ghost"],
+    "Taster": ["plt_file", "limit_level", "binary_headers", "binary_shape", "binary_data", "boxes_coordinates", "nofail", "verbose"],
+    "Colander": ["plotfile", "limit_level", "output", "variables", "allow_missing"],
+    "Mandoline": ["plotfile", "fields", "limit_level", "serial", "verbose"],
+    "Mandoline.slice": ["normal", "pos", "outfile", "fformat"],
+    "Chef": ["plotfile", "recipe", "outfile", "species", "reactions", "mech", "pressure", "serial", "kept_fields"],
+    "chk2plt": ["chkdir", "target_plotfile", "species", "gradp", "species_reactions", "floor_massfracs", "pltdir"],
+    "combine": ["pck1", "pck2", "pltout", "vars1", "vars2", "inplace"],
+    "volume_integral": ["pck", "field", "limit_level", "use_volfrac"],
+}
+
+
+def _positional(sig, na, order):
+    """the call spelled with positional arguments in the documented order (None when that is not possible)"""
+    given = [n for n in order if n in na]
+    if not given or any(n not in order and n != "self" for n in na):
+        return None
+    last = max(order.index(n) for n in given)
+    pos = []
+    for n in order[:last + 1]:
+        if n in na:
+            pos.append(na[n])
+        else:
+            p = sig.parameters.get(n)
+            if p is None or p.default is inspect.Parameter.empty:
+                return None
+            pos.append(p.default)
+    return ([na["self"]] if "self" in na else []) + pos
 
 
 def vary(fn, spec, label):
@@ -60,11 +104,11 @@ def vary(fn, spec, label):
         except TypeError:
             return fn(*a, **k)
         h = int(hashlib.sha256((label + repr([(n, repr(v)[:80]) for n, v in ba.arguments.items() if n != "self"])).encode()).hexdigest(), 16)
-        if h % 2 == 0:
+        if h % 2 == 0 and not ((h >> 1) % 2 == 1 and k and label in DOC_ORDER):
             return fn(*a, **k)
         changed = False
         na = dict(ba.arguments)
-        for n, kind in spec.items():
+        for n, kind in (spec.items() if h % 2 == 1 else ()):
             if n in na:
                 if kind == "floats*":      # *args of floats
                     nv = tuple(_float(v, h) for v in na[n])
@@ -75,15 +119,24 @@ def vary(fn, spec, label):
                 elif kind == "floats*" and any(type(x) is not type(y) for x, y in zip(nv, na[n])):
                     changed = True
                 na[n] = nv
-        if not changed:
+        # the call spelled with positional arguments in the documented order (for a quarter of the calls)
+        posargs = _positional(sig, na, DOC_ORDER[label]) if label in DOC_ORDER and (h >> 1) % 2 == 1 and k else None
+        if not changed and posargs is None:
             return fn(*a, **k)
         nb = sig.bind_partial()
         nb.arguments.update(na)
-        _count("type_varied_calls:" + label)
+        if changed:
+            _count("type_varied_calls:" + label)
+        if posargs is not None:
+            _count("positional_calls:" + label)
+        tsig = (label, tuple(sorted((n, type(v).__name__) for n, v in na.items() if n in spec and n in ba.arguments
+                                    and type(v) is not type(ba.arguments[n]))), posargs is not None)
         _busy[0] += 1
         try:
             try:
-                return fn(*nb.args, **nb.kwargs)
+                r = fn(*posargs) if posargs is not None else fn(*nb.args, **nb.kwargs)
+                ACCEPTED.add(tsig)
+                return r
             except Exception as e:
                 first = e
         finally:
@@ -95,6 +148,7 @@ def vary(fn, spec, label):
         finally:
             _busy[0] -= 1
         _count("type_variants_refused:" + label + ":" + type(first).__name__)
+        REFUSED.setdefault(tsig, f"{type(first).__name__}: {str(first)[:120]}")
         return r
     wrapper.__verif_typefuzz__ = True
     return wrapper
@@ -122,7 +176,7 @@ def install():
             ("amr_kitchen.taste.taste", "Taster", {"plt_file": "path", "limit_level": "int"}),
             ("amr_kitchen.colander.colander", "Colander", {"plotfile": "path", "output": "path", "variables": "names", "limit_level": "int"}),
             ("amr_kitchen.mandoline.mandoline", "Mandoline", {"plotfile": "path", "fields": "names", "limit_level": "int"}),
-            ("amr_kitchen.chef.chef", "Chef", {"plotfile": "path", "outfile": "path", "pressure": "float"}),
+            ("amr_kitchen.chef.chef", "Chef", {"plotfile": "path", "outfile": "path", "pressure": "float", "kept_fields": "name"}),
             ("amr_kitchen.chk2plt.chk2plt", "chk2plt", {"chkdir": "path", "target_plotfile": "path", "species": "names", "pltdir": "path"})):
         try:
             c = getattr(common.repo_module(modname), cls)
